@@ -1498,6 +1498,7 @@ def S1e(F, rep, FL):
     fn = F.fn(OHB + '::read')
     rep.count('S1')
     bad = None
+    eof_only = False
     niter = 0
     for evs, out in FL.paths(fn, follow=('BLF',)):
         idx = [i for i, e in enumerate(evs) if e['ev'] == 'branch' and e.get('loop')]
@@ -1509,13 +1510,18 @@ def S1e(F, rep, FL):
             matched = any(e['ev'] == 'assign' and (member_path((e['n'].get('lhs') if e['n'].get('k') == 'Bin' else None)) or (None,))[-1] == 'signature' for e in seg)
             if matched:
                 continue
-            if not any(e['ev'] == 'call' and e['n'].get('fn') == 'eof' for e in seg):
+            # the test has to be on the stream's state as a whole (good()): a std::fstream that was closed meanwhile, or whose seek failed,
+            # carries failbit without eofbit - an eof()-only test lets the search spin on it (the close() race fixed in 4842e88)
+            if not any(e['ev'] == 'call' and e['n'].get('fn') == 'good' for e in seg):
                 bad = seg
+                eof_only = any(e['ev'] == 'call' and e['n'].get('fn') == 'eof' for e in seg)
                 break
         if bad:
             break
     rep.ob('S1', 'loop|eof-every-retry', bad is None and niter > 0, rep.fn_site(fn),
-           'ObjectHeaderBase::read: every non-matching iteration tests is.eof() before retrying (%d iterations over all paths)' % niter if bad is None else
+           'ObjectHeaderBase::read: every non-matching iteration tests the stream state (good()) before retrying (%d iterations over all paths)' % niter if bad is None else
+           ('ObjectHeaderBase::read retries the signature search after testing eof() only: %s - a stream that failed without reaching its end (closed by close() '
+            'meanwhile, failed seek) keeps the worker spinning' % fmt_events(bad, limit=12)) if eof_only else
            'ObjectHeaderBase::read can retry the signature search without testing for end of file: %s - at the end of the input the worker spins forever'
            % fmt_events(bad, limit=12), nontrivial=True)
 
